@@ -9,6 +9,6 @@ CONSTANTS
   MaxHeight = 3
   MaxNow = 4
   KeysendQuirk = TRUE
-  MaxLen = 10
+  MaxLen = 12
 INVARIANTS Dump
 CHECK_DEADLOCK FALSE
